@@ -156,6 +156,13 @@ type endpoint struct {
 	recheckPaths map[string]bool
 	// snapshot is the snapshot from the last scan.
 	snapshot *core.Snapshot
+	// pollBaseline is the snapshot against which poll-based watching compares
+	// each polling scan in order to detect modifications. It is the snapshot
+	// from the most recent polling scan or from the most recent full scan
+	// performed by Scan, whichever is newer, so that it always reflects what
+	// was last seen by either the polling Goroutine or the controller. It is
+	// covered by scanLock.
+	pollBaseline *core.Snapshot
 	// hasher is the hasher used for scans.
 	hasher hash.Hash
 	// cache is the cache from the last successful scan on the endpoint.
@@ -480,6 +487,7 @@ func NewEndpoint(
 		pollSignal:                   state.NewCoalescer(pollSignalCoalescingWindow),
 		recursiveWatchRetryEstablish: make(chan struct{}),
 		scanLock:                     scanLock,
+		pollBaseline:                 &core.Snapshot{},
 		hasher:                       hasherFactory(),
 		cache:                        cache,
 		ignorer:                      ignorer,
@@ -606,9 +614,6 @@ func (e *endpoint) watchPoll(ctx context.Context, pollingInterval uint32, nonRec
 	// Track whether or not it's our first iteration in the polling loop. We
 	// adjust some behaviors in that case.
 	first := true
-
-	// Track the previous snapshot.
-	previous := &core.Snapshot{}
 
 	// If non-recursive watching is available, then set up a non-recursive
 	// watcher (and ensure its termination). Since non-recursive watching is a
@@ -759,8 +764,15 @@ func (e *endpoint) watchPoll(ctx context.Context, pollingInterval uint32, nonRec
 			logger.Debug("Accelerated scanning now available")
 		}
 
-		// Extract scan parameters so that we can release the scan lock.
+		// Extract scan parameters so that we can release the scan lock. We
+		// compare against (and then update) the polling baseline, which may
+		// have been advanced by a full scan in Scan since our last polling
+		// scan. If we only compared against our own previous polling scan, then
+		// a modification that exactly reverted a change already returned by
+		// Scan (but not yet seen by a polling scan) would go unreported.
 		snapshot := e.snapshot
+		previous := e.pollBaseline
+		e.pollBaseline = snapshot
 
 		// Release the scan lock.
 		e.unlockScanLock()
@@ -784,9 +796,6 @@ func (e *endpoint) watchPoll(ctx context.Context, pollingInterval uint32, nonRec
 				}
 			}
 		}
-
-		// Update our tracking parameters.
-		previous = snapshot
 
 		// If we've seen modifications, and we're not ignoring them, then strobe
 		// the poll events channel.
@@ -1086,6 +1095,7 @@ func (e *endpoint) Scan(ctx context.Context, _ *core.Entry, full bool) (*core.Sn
 		if err := e.scan(ctx, nil, nil); err != nil {
 			return nil, err, true
 		}
+		e.pollBaseline = e.snapshot
 	}
 
 	// Verify that we haven't exceeded the maximum entry count.
